@@ -20,6 +20,8 @@
                 prefix or counter loses its high octets)
   KDF-COUNTER   the mask-generation function starts its block counter at 0 (PKCS #1 MGF1), the key-derivation function at 1
                 (IEEE 1363 KDF2), and the counter is appended to the input as four big-endian octets
+  ERR-SIGN      the result of a routine that reports errors as negative values is not stored in an unsigned variable (where
+                `<= 0` no longer sees them: rejected padding is returned as an enormous length)
   HMAC-KEY      a key longer than the block size is replaced by its digest before the pads are built, and the threshold,
                 the zero fill and the pad loop use one block size
 """
@@ -759,6 +761,49 @@ def _hash_block_size(prog):
     return {"SH224": 64, "SH256": 64, "B2S160": 64, "B2S256": 64, "SH384": 128, "SH512": 128}.get(m.group(1))
 
 
+# ---------------------------------------------------------------------- ERR-SIGN
+def _returns_negative(g):
+    for el in g.all_elements():
+        if el.e[0] == "ret" and el.e[1] is not None:
+            c = _const(g, el.e[1])
+            if c is not None and c < 0:
+                return True
+    return False
+
+
+def rule_err_sign(ctx, prog, chk):
+    n = 0
+    for fn in prog.all:
+        if not in_scope(fn):
+            continue
+        for el in fn.all_elements():
+            for sub in ir.walk(fn, el.e):
+                tgt = rhs = None
+                if sub[0] == "d" and sub[2] is not None:
+                    tgt, rhs = sub[1], sub[2]
+                elif sub[0] == "=" and ir.strip_casts(sub[1])[0] == "v":
+                    tgt, rhs = ir.strip_casts(sub[1])[1], sub[2]
+                if tgt is None:
+                    continue
+                r = fn.resolve(rhs)
+                if isinstance(r, list) and r and r[0] == "k":
+                    continue            # an explicit cast states the intention
+                if not (isinstance(r, list) and r and r[0] == "c" and r[1]):
+                    continue
+                g = prog.get(r[1], near=fn)
+                if g is None or not _returns_negative(g):
+                    continue
+                n += 1
+                v = fn.vars[tgt]
+                ty = (v.get("c") or "").replace("const ", "")
+                if ty.startswith("unsigned") or ty == "_Bool":
+                    chk.fail("ERR-SIGN", fn, v["n"], "`%s` reports errors as negative values; stored in the %s `%s` they become huge positive ones and a test such as `%s <= 0` no longer refuses them" % (
+                        r[1], v.get("t") or ty, v["n"], v["n"]), line=el.line)
+                else:
+                    chk.ok("ERR-SIGN", fn, v["n"], "signed result variable", line=el.line)
+    return n
+
+
 # ---------------------------------------------------------------------- KDF-COUNTER
 def rule_kdf_counter(ctx, prog, chk):
     n = 0
@@ -899,6 +944,7 @@ def analyse(ctx, prog, chk, selftest=False):
     c["hmac"] = rule_hmac(ctx, prog, chk)
     c["shift"] = rule_shift_dead(ctx, prog, chk)
     c["kdf"] = rule_kdf_counter(ctx, prog, chk)
+    c["errsign"] = rule_err_sign(ctx, prog, chk)
     return c
 
 
@@ -915,6 +961,7 @@ def run(ctx, chk):
     chk.floor("PKCS7-REJECT", "unpadding release points and wrappers", c["pkcs7"], 2)
     chk.floor("HMAC-KEY", "HMAC key preparations", c["hmac"], 1)
     chk.floor("KDF-COUNTER", "counter starts and counter encodings", c["kdf"], 2)
+    chk.floor("ERR-SIGN", "results of routines that return negative error codes", c["errsign"], 2)
     chk.floor("SHIFT-DEAD", "right shifts by a constant", c["shift"], 100)
     if chk.tier == "thorough":
         from .. import facts
